@@ -95,6 +95,7 @@ type globalFact struct {
 	nonNilErr  bool
 	nonNilRef  bool
 	constInit  *ssa.Const
+	funcInit  *ssa.Function
 }
 
 func (e *Eng) globalFactOf(g *ssa.Global) *globalFact {
@@ -144,6 +145,10 @@ func (e *Eng) globalFactOf(g *ssa.Global) *globalFact {
 			case *ssa.Const:
 				gf.constInit = v
 			case *ssa.MakeMap, *ssa.MakeChan, *ssa.Alloc, *ssa.MakeClosure:
+				gf.nonNilRef = true
+			case *ssa.Function:
+				// var F = f, never assigned again: calls through F are calls of f
+				gf.funcInit = v
 				gf.nonNilRef = true
 			}
 		}
